@@ -961,6 +961,9 @@ static size_t ZDICT_addEntropyTablesFromBuffer_advanced(
         if (ZDICT_isError(eSize)) return eSize;
         hSize += eSize;
     }
+    /* When the header does not fit in front of the content it replaces its first bytes :
+     * what remains of the content must still hold the largest repcode */
+    if (dictBufferCapacity - hSize < (size_t)ZDICT_maxRep(repStartValue)) return ERROR(dstSize_tooSmall);
 
     /* add dictionary header (after entropy tables) */
     MEM_writeLE32(dictBuffer, ZSTD_MAGIC_DICTIONARY);
